@@ -15,7 +15,9 @@ RULE = ('enumerated: every cycle length 1..6 with every entry point, with an '
         'through a range (SUM over a run containing / feeding the cycle), '
         'self references; DAGs rich in sharing: the same cell twice in one '
         'formula, diamonds of width 2-4 and depth 1-6, a cell reached both '
-        'directly and through a range; failure-depth family: chains of '
+        'directly and through a range; the same shapes with pass-through '
+        'formulas =IF(x=y,x,y) over BLANK or constant leaves (every cell of '
+        'the chain is blank); failure-depth family: chains of '
         'length 2,4,8,16,32 whose last cell fails (unknown function; a '
         'function raising a Python error injected through the namespace); '
         'sampled (Hypothesis-decoded): random digraphs on <= 8 cells with '
@@ -113,6 +115,33 @@ def enumerate_cases(tier, shard=0, nshards=1):
                                         'A2': [['ref', 'XSheet1!A1']]},
                 'consts': {'XSheet1!A1': 2, 'A1': 3}, 'eval': 'XSheet1!A2',
                 'n': 4})
+    # pass-through formulas (=IF(x=x,x,x)): BLANK (or constant) leaves keep
+    # every cell above them blank; chains and diamonds in which each formula
+    # mentions its precedents several times
+    for n in (3, 8, 14, 20):
+        for leaf in (None, 5):
+            for nrefs in (1, 2, 3):
+                cells = {NAMES[i]: [['ref', NAMES[i + 1]]] * nrefs
+                         for i in range(n)}
+                out.append({'k': 'graph', 'mode': 'pass', 'cells': cells,
+                            'consts': {} if leaf is None else {NAMES[n]: leaf},
+                            'eval': NAMES[0], 'n': n + 1})
+    for width in (2, 3):
+        for depth in (2, 4, 6):
+            for blank in (True, False):
+                cells = {}
+
+                def nm2(d_, w):
+                    return '%s%d' % ('ABCDEFGH'[d_], w + 1)
+                for d_ in range(depth):
+                    for w in range(width):
+                        cells[nm2(d_, w)] = [['ref', nm2(d_ + 1, x)]
+                                             for x in range(width)]
+                cells['H9'] = [['ref', nm2(0, w)] for w in range(width)]
+                out.append({'k': 'graph', 'mode': 'pass', 'cells': cells,
+                            'consts': {} if blank else {
+                                nm2(depth, w): w + 1 for w in range(width)},
+                            'eval': 'H9', 'n': len(cells)})
     for kind in ('unknown', 'pyerror'):
         out.append({'k': 'faildepth', 'kind': kind})
     # one Evaluator reused after a FAILED evaluation: once the cause is
@@ -177,8 +206,11 @@ def _build(d):
     if not cells:
         cells[NAMES[0]] = [['ref', NAMES[0]]]
         consts.pop(NAMES[0], None)
-    return {'k': 'graph', 'cells': cells, 'consts': consts,
+    case = {'k': 'graph', 'cells': cells, 'consts': consts,
             'eval': d.choice(sorted(cells)), 'n': n}
+    if d.pick(4) == 0:
+        case['mode'] = 'pass'
+    return case
 
 
 def strategy(tier):
@@ -265,6 +297,44 @@ def render(refs, own='Sheet1'):
             t = 'Sheet1!' + t
         parts.append(t if r[0] == 'ref' else 'SUM(%s)' % t)
     return '=' + '+'.join(parts) + '+1'
+
+
+def render_pass(refs, own='Sheet1'):
+    """pass-through formulas: the value is one of the referenced values
+    UNCHANGED, so that a blank leaf keeps every cell above it blank, and
+    every formula mentions its precedents more than once"""
+    t = []
+    for r in refs:
+        x = _targets(r)[0]
+        if '!' not in x and own != 'Sheet1':
+            x = 'Sheet1!' + x
+        t.append(x)
+    if len(t) == 1:
+        return '=IF(%s=%s,%s,%s)' % (t[0], t[0], t[0], t[0])
+    if len(t) == 2:
+        return '=IF(%s=%s,%s,%s)' % (t[0], t[1], t[0], t[1])
+    return '=IF(%s=%s,%s,%s)' % (t[0], t[1], t[2], t[0])
+
+
+def ref_value_pass(cells, consts, start):
+    memo = {}
+
+    def val(c):
+        if c in memo:
+            return memo[c]
+        if c not in cells:
+            v = consts.get(c)           # None: blank
+        else:
+            t = [_targets(r)[0] for r in cells[c]]
+            if len(t) == 1:
+                v = val(t[0])
+            elif len(t) == 2:
+                v = val(t[0]) if val(t[0]) == val(t[1]) else val(t[1])
+            else:
+                v = val(t[2]) if val(t[0]) == val(t[1]) else val(t[0])
+        memo[c] = v
+        return v
+    return val(start)
 
 
 class Budget(BaseException):
@@ -410,13 +480,23 @@ def judge(case):
     cells, consts = case['cells'], case.get('consts', {})
     start = case['eval']
     d = {}
+    passmode = case.get('mode') == 'pass'
+    if passmode:
+        # references only (a range stands for its first cell)
+        cells = {c: [['ref', _targets(r)[0]] for r in refs]
+                 for c, refs in cells.items()}
     for c, refs in cells.items():
-        d[_full(c)] = render(refs, _full(c).split('!')[0])
+        d[_full(c)] = (render_pass if passmode else render)(
+            refs, _full(c).split('!')[0])
     for c, v in consts.items():
         d[_full(c)] = v
     try:
         cyclic, sim_calls = simulate(cells, start)
     except OverflowError:
+        return res
+    if passmode and cyclic:
+        # IF is lazy: whether the cycle is reached depends on values
+        res.labels = ('pass-through', 'cyclic-not-judged')
         return res
     try:
         m = lib.compile_dict(d)
@@ -449,7 +529,12 @@ def judge(case):
                      'message mentioning a cycle', detail[:300], d)
         return res
     # acyclic
-    want = ('N', float(ref_value(cells, consts, start)))
+    if passmode:
+        v = ref_value_pass(cells, consts, start)
+        want = ('Z',) if v is None else ('N', float(v))
+        res.labels += ('pass-through', 'blank' if v is None else 'number')
+    else:
+        want = ('N', float(ref_value(cells, consts, start)))
     shared = sim_calls > len(set(cells) | set(consts)) + 1
     res.nontrivial = shared
     if outcome == 'exception':
